@@ -31,6 +31,10 @@ pub struct Scn {
     pub gc: GcSched,
     pub tape: Tape,
     pub fuel: u64,
+    /// across-runs form only: run the program as it is (top-level declarations are global bindings
+    /// that every repetition replaces) instead of wrapping it in a block
+    #[serde(default)]
+    pub unwrapped: bool,
 }
 
 pub struct C14;
@@ -102,7 +106,17 @@ impl Check for C14 {
         } else {
             random_gc(rng)
         };
-        Scn { case, form, gc, tape: Tape::random(rng, 8), fuel: 400_000 }
+        let unwrapped = !inside && rng.chance(0.3);
+        if unwrapped {
+            // top-level declarations of the program itself: global bindings that every repetition
+            // replaces (short and very long names)
+            let long = if rng.chance(0.6) { "_a_name_far_longer_than_sixty_four_bytes_as_generated_code_and_bdd_style_tests_have_them" } else { "" };
+            let at = 3.min(case.tree.kids.len());
+            case.tree.kids.insert(at, Node::leaf(format!(
+                "const vtop{long}: any = [{{ t: 1 }}, {{ t: 2, l: [{{}}] }}]; let vcount{long}: number = 0; function vtopfn{long}(): any {{ vcount{long} += 1; return vtop{long}.length + vcount{long}; }} class VTop{long} {{ n: any = vtopfn{long}(); }} __log.push(\"top:\" + new VTop{long}().n);"
+            )));
+        }
+        Scn { case, form, gc, tape: Tape::random(rng, 8), fuel: 400_000, unwrapped }
     }
 
     fn generate_stream(&self, stream: &str, rng: &mut Rng, idx: usize, tier: Tier) -> Scn {
@@ -132,10 +146,10 @@ impl Check for C14 {
                 case.answers.insert(format!("{}", 7000 + i), Answer::Value(json!(i)));
             }
             let gc = GcSched { force_at_suspend: true, ..GcSched::threshold(*rng.pick(&[0u32, 1, 3, 100])) };
-            return Scn { case, form: Form::InsideRun { iterations }, gc, tape: Tape::random(rng, 8), fuel: 600_000 };
+            return Scn { case, form: Form::InsideRun { iterations }, gc, tape: Tape::random(rng, 8), fuel: 600_000, unwrapped: false };
         }
         let gc = if rng.chance(0.5) { GcSched::off() } else { random_gc(rng) };
-        Scn { case: e.to_case(), form: Form::AcrossRuns { reps: 6 + rng.below(7) as u32 }, gc, tape: Tape::random(rng, 8), fuel: 400_000 }
+        Scn { case: e.to_case(), form: Form::AcrossRuns { reps: 6 + rng.below(7) as u32 }, gc, tape: Tape::random(rng, 8), fuel: 400_000, unwrapped: rng.chance(0.3) }
     }
 
     fn shrink(&self, scn: &Scn) -> Vec<Scn> {
@@ -145,6 +159,9 @@ impl Check for C14 {
         }
         if !scn.tape.v.is_empty() {
             out.push(Scn { tape: Tape::from_vec(vec![]), ..scn.clone() });
+        }
+        if scn.unwrapped {
+            out.push(Scn { unwrapped: false, ..scn.clone() });
         }
         for c in scn.case.shrink_tree() {
             out.push(Scn { case: c, ..scn.clone() });
@@ -162,7 +179,9 @@ impl Check for C14 {
             Form::AcrossRuns { reps } => {
                 for _ in 0..reps {
                     let mut spec = scn.case.spec(Driver::Step, scn.gc.clone(), scn.tape.clone(), scn.fuel);
-                    spec.source = block_wrapped_source(&scn.case);
+                    if !scn.unwrapped {
+                        spec.source = block_wrapped_source(&scn.case);
+                    }
                     spec.path = None;
                     let out = run_to_end(&mut h, spec);
                     results.push(out.result.chars().take(60).collect());
